@@ -65,6 +65,43 @@ class DD:
         return []
 
 
+class SA:
+    """SADUMP: single partition, disk set (files in random order) or media; MSB0 bitmaps"""
+    kind = "sadump"
+    def __init__(self, R, idx):
+        rng = R.rng
+        self.top = rng.choice([24, 50, 100])
+        self.file = runs_to_set(rand_runs(rng, self.top))
+        self.mem = self.file | runs_to_set(rand_runs(rng, self.top))
+        self.max_mapnr = self.top + rng.choice([0, 0, 5])
+        self.top = self.max_mapnr
+        sakind = rng.choice(["single", "diskset", "media", "diskset"])
+        pages = sorted(self.file)
+        nd = max(1, min(rng.choice([2, 3]), len(pages))) if sakind == "diskset" else 1
+        cuts = sorted(rng.sample(range(0, len(pages)), nd - 1)) if nd > 1 else []
+        cuts = [b - a for a, b in zip([0] + cuts, cuts + [len(pages)])]
+        self.paths = [R.path("c07-%d-%d.sadump" % (idx, k)) for k in range(nd)]
+        dumpgen.write_sadump(self.paths, {p: dumpgen.page_bytes(p, PS) for p in pages}, ram=sorted(self.mem),
+                             max_mapnr=self.max_mapnr, kind=sakind, ndisks=nd, cuts=cuts,
+                             header_version=rng.choice([0, 1]), long_mode=rng.random() < 0.7)
+        self.windows = sakind
+        self.order = list(range(nd))
+        rng.shuffle(self.order)
+    def open_line(self):
+        return "open %d %s" % (len(self.paths), " ".join(self.paths[i] for i in self.order))
+    def layout_lines(self):
+        nbytes = (self.max_mapnr + 7) // 8
+        b1, b2 = bytearray(nbytes), bytearray(nbytes)
+        for p in self.mem:
+            b1[p >> 3] |= 0x80 >> (p & 7)
+        for p in self.file:
+            b2[p >> 3] |= 0x80 >> (p & 7)
+        return ["dd", "msb0 1", "ddfile 0 %d %d %s 0" % ((1 << 64) - 1, self.max_mapnr, bytes(b2).hex()),
+                "ddmem %d %s" % (self.max_mapnr, bytes(b1).hex())]
+    def kv_pages(self):
+        return []
+
+
 class ELF:
     kind = "elf"
     def __init__(self, R, idx):
@@ -179,7 +216,7 @@ def run(R):
     lines, meta = [], []
     layouts = []
     for li in range(nlay):
-        L = (DD if li % 2 == 0 else ELF)(R, li)
+        L = (SA if li % 5 == 3 else DD if li % 2 == 0 else ELF)(R, li)
         if li == 1:
             # corpus: a minimised past failure runs first (zero-filesz segment with an unaligned start)
             L.segs = [dict(paddr=12287, filesz=16383, memsz=16383, voff=0xffff880000000000),
@@ -221,6 +258,17 @@ def run(R):
             lines.append("probe 2 %d %d" % (v, PS)); meta.append((li, ("kvprobe", v), "read"))
         for q in qs:
             lines.append(" ".join(map(str, q))); meta.append((li, q, "after"))
+        # the same frames read with zero-fill on, then again with zero-fill off: the second answer must again be what
+        # the page map says (a page delivered as zeroes must not stay readable)
+        plist = list(range(top)) + (list(range(hi - 12, hi + 4)) if hi > top else [])
+        lines.append("setnum file.zero_excluded 1"); meta.append((li, ("set", 1), "read"))
+        for p in plist:
+            lines.append("probe 1 %d %d" % (p * PS, PS)); meta.append((li, ("zprobe", p), "read"))
+        lines.append("setnum file.zero_excluded 0"); meta.append((li, ("set", 0), "read"))
+        for p in plist:
+            lines.append("probe 1 %d %d" % (p * PS, PS)); meta.append((li, ("probe2", p), "read"))
+        for q in rng.sample(qs, min(len(qs), 150)):
+            lines.append(" ".join(map(str, q))); meta.append((li, q, "after-zerofill"))
     text = "\n".join(lines) + "\n"
     exe = R.build_harness("s_fmt", ["s_fmt.c"])
     rc, out, err = R.run_harness(exe, stdin_text=text)
@@ -232,7 +280,7 @@ def run(R):
         fail = (k, "harness stopped after %d of %d observations (rc=%s) at '%s': %s" %
                 (len(impl_all), len(obs_meta), rc, obs_meta[k], (err.strip().split("\n") or [""])[0][:300]))
     # property on the implementation's answers
-    readable = {}
+    readable, readable2 = {}, {}
     kinds = {}
     for i, (m, o) in enumerate(zip(obs_meta, impl_all)):
         if fail and i >= fail[0]:
@@ -246,7 +294,10 @@ def run(R):
         if q[0] == "probe":
             readable.setdefault(li, {})[q[1]] = not o.startswith("nodata")
             continue
-        if q[0] == "kvprobe":
+        if q[0] == "probe2":
+            readable2.setdefault(li, {})[q[1]] = not o.startswith("nodata")
+            continue
+        if q[0] in ("kvprobe", "zprobe", "set"):
             continue
         S = L.file if q[1] == "file" else L.mem
         if q[0] == "bits":
@@ -269,6 +320,12 @@ def run(R):
             bad = [p for p, ok in rd.items() if ok != (p in layouts[li].file)]
             if bad:
                 fail = (0, "frame %d of %s dump %d: read %s but the file page map bit is %s" %
+                        (bad[0], layouts[li].kind, li, "succeeds" if rd[bad[0]] else "reports missing data", "set" if bad[0] in layouts[li].file else "clear"))
+                break
+        for li, rd in readable2.items():
+            bad = [p for p, ok in rd.items() if ok != (p in layouts[li].file)]
+            if bad and fail is None:
+                fail = (0, "frame %d of %s dump %d: after it was read with zero_excluded=1, a read with zero_excluded=0 %s but the file page map bit is %s" %
                         (bad[0], layouts[li].kind, li, "succeeds" if rd[bad[0]] else "reports missing data", "set" if bad[0] in layouts[li].file else "clear"))
                 break
     # correspondence with the model
@@ -330,10 +387,10 @@ def run(R):
                trusted_base=["Lean 4 kernel", "tools/dumpgen.py writers (diskdump incl. split, ELF)", "harness/s_fmt.c, gcc + ASan/UBSan"],
                broken_theorems=proof["broken"], theorems=THEOREMS,
                evaluations=len(impl_all) + len(iimpl), internal_function_cases=len(iimpl), distinct_nontrivial=len({(m[0], m[1]) for m in obs_meta if m[0] != "open" and m[1][0] in ("bits", "fset", "fclr")}),
-               rule="generated diskdump (1-3 split files passed in random order) and ELF dumps (segments in random order, filesz<memsz) with random runs; "
+               rule="generated diskdump (1-3 split files passed in random order), SADUMP (single, disk set in random order, media) and ELF dumps (segments in random order, filesz<memsz) with random runs; "
                     "for file and memory page maps: find-set/find-clear at every index incl. beyond the top, bulk retrieval for all/sampled (first,last) "
-                    "ranges, before and after reading every frame in MACHPHYS and KV space; every answer is compared with the frame set the dump encodes and "
+                    "ranges, before and after reading every frame in MACHPHYS and KV space, and again after the frames were read with zero_excluded=1 and =0; every answer is compared with the frame set the dump encodes and "
                     "with the read status per frame; non-trivial = distinct (dump, query)",
                traces_validated_against_impl=len(impl_q), correspondence_first_diff=mism, case_kinds=kinds,
                samples=[dict(kind=L.kind, file=sorted(L.file)[:20]) for L in layouts[:2]])
-    return "proof", cov, ["bit order LSB0 for diskdump; SADUMP (MSB0) is exercised by the internal-function stream only"]
+    return "proof", cov, ["bit order LSB0 for diskdump, MSB0 for SADUMP (single partition, disk set, media)"]
